@@ -10,3 +10,5 @@ import RosuModel.Props.C15Ieee
 import RosuModel.Props.C15IeeeDecoded
 import RosuModel.Props.C15IeeeShift
 import RosuModel.Props.C15IeeeVelocity
+import RosuModel.Props.C15ComboOnly
+import RosuModel.Props.C15ComboOnlyAny
